@@ -5,7 +5,8 @@
 (* CallSampler state machine.  One event per step, every line gets a verdict. *)
 (*   begin   instance, initial vector, step type                              *)
 (*   update  position k, the likelihood row and the probability row the code  *)
-(*           computed (integers round(v*10^6)), the allele chosen             *)
+(*           computed (integers round(v*10^6)), the allele chosen; for the MH *)
+(*           kernel also the probabilities of the K reverse moves             *)
 (*   sorted  vector after the compound step, returned llk (relative to the    *)
 (*           largest likelihood of the last row)                              *)
 EXTENDS CallSampler, IOUtils
@@ -50,18 +51,20 @@ UpdateClause(e) ==
       lmax == BnMaxS(lrow)
       gw == GWRow(inst, a, k)
       cur == a[k] + 1
-      den == MHDen(inst, a, k)
-      mhOthers == [b \in 1..K |-> IF b = cur THEN 0 ELSE e.pq[b]]
   IN
   IF ~(k \in remaining) THEN "ScanVisitsEachPositionOnce"
   ELSE IF e.a # a THEN "StateCarriedBetweenUpdates"
   ELSE IF Len(e.lq) # K \/ Len(e.pq) # K THEN "RowLength"
   ELSE IF \E b \in 1..K : ~Near(e.lq[b], lrow[b], lmax) THEN "LikelihoodRowIsGenotypeLikelihood"
   ELSE IF kind = "gibbs" /\ (\E b \in 1..K : ~Near(e.pq[b], gw[b], BnSumS(gw))) THEN "GibbsRowIsFullConditional"
+  ELSE IF kind = "mh" /\ (SumNat(e.pq) > 1000000 + K \/ SumNat(e.pq) < 1000000 - K) THEN "MHRowIsProbabilityVector"
+  ELSE IF kind = "mh" /\ Len(e.rq) # K THEN "RowLength"
+  \* detailed balance with the recorded reverse move:  pi(v) T(v->v_b) = pi(v_b) T(v_b->v)  (one unit of slack each)
   ELSE IF kind = "mh" /\ (\E b \in 1..K : b # cur /\
-            ~Near(e.pq[b], BnMin(MHNum(inst, a, k, b - 1), den), BnMulSmall(den, K - 1))) THEN "MHRowIsMetropolisHastings"
-  ELSE IF kind = "mh" /\ (e.pq[cur] + SumNat(mhOthers) > 1000000 + K \/ e.pq[cur] + SumNat(mhOthers) < 1000000 - K)
-       THEN "MHSelfTransitionIsRemainder"
+            LET p1 == PiNum(inst, a)  p2 == PiNum(inst, With(a, k, b - 1))
+                lhs == BnMul(BnFromNat(e.pq[b]), p1)  rhs == BnMul(BnFromNat(e.rq[b]), p2)
+                sl == BnAdd(p1, p2)
+            IN  ~(BnLeq(lhs, BnAdd(rhs, sl)) /\ BnLeq(rhs, BnAdd(lhs, sl)))) THEN "MHDetailedBalance"
   ELSE IF ~(e.b \in 0..(K - 1)) \/ e.pq[e.b + 1] = 0 THEN "ChoiceHasPositiveProbability"
   ELSE "ok"
 TUpdate(e) == LET c == UpdateClause(e) IN
